@@ -335,10 +335,11 @@ def run_regex(ctx):
         ctx.mismatch(f"{m['pipeline']}.apply vs Model.RegexPipe", f"apply() differs from the model: pattern={m['pattern']} text={(m['text'] if m['text'] is not None else bytes(m['data']))!r} "
                      f"fc_results={m['fc_results']} results={m['results']} observed={m['real']}", {"half": "regex", **m})
     what = {
-        "regex_spec_file_ok": ("kf_regex_untargeted_changed", "file content is not 'targeted lines substituted, every other line identical, dry-run untouched'"),
+        "regex_spec_file_ok": ("kf_regex_untargeted_changed", "file content is not 'every line identical or a target line (SAST: a line that carries a finding "
+                               "of the results handed in) replaced by its substitution; dry-run / no change untouched'"),
         "regex_spec_changes_ok": ("kf_regex_changes_not_edits", "changes are not one per edited line (1-based, in order), or None/ChangeSet or diff wrong"),
         "regex_spec_findings_ok": ("kf_regex_findings_off_by_one", "a change does not carry exactly the findings whose range contains its line"),
-        "regex_spec_unfixed_ok": ("kf_regex_unfixed_wrong", "unfixed findings are not those of targeted-but-unchanged lines"),
+        "regex_spec_unfixed_ok": ("kf_regex_unfixed_wrong", "an unfixed finding is reported for an edited line, for a line that carries no finding, or is not a finding of that line"),
         "regex_spec_isolation_ok": ("kf_regex_no_isolation", "a file that cannot be read (undecodable) or transformed (_apply raises) is not isolated: "
                                     "the exception escapes apply(), or no failure is recorded / the file is touched / its findings are not reported "
                                     "unfixed at line 0 (or a failure is recorded for a good file)"),
@@ -355,16 +356,27 @@ def run_regex(ctx):
 
 # ------------------------------------------------------------------------------------------------
 def run(ctx: core.Ctx):
-    run_regex(ctx)
-    try:
-        from harness import c19_xml
-    except ImportError:
-        ctx.notes.append("xml half not built")
-        return
+    """An exception while driving the implementation (a constructor of the harness' own set-up that no longer fits, coqc
+    rejecting a case file, ...) is not an observation about the property: it breaks the tie (ctx.mismatch), it is never
+    reported as a violation with a concrete input and never kills the check."""
+    import traceback
+    for name, part in (("regex", run_regex), ("xml", _run_xml)):
+        try:
+            part(ctx)
+        except Exception as e:  # noqa
+            ctx.mismatch(f"C19 harness ({name} half)", f"could not drive the implementation / evaluate the model: {type(e).__name__}: {e}",
+                         {"half": name + "-harness", "traceback": traceback.format_exc()[-3000:]})
+
+
+def _run_xml(ctx):
+    from harness import c19_xml
     c19_xml.run(ctx)
 
 
 def replay(ctx, body):
+    if str(body.get("half", "")).endswith("-harness"):
+        print("tie break recorded by the harness itself, no input to replay:\n", body.get("traceback"))
+        return 0
     if str(body.get("half", "")).startswith("xml"):
         from harness import c19_xml
         return c19_xml.replay(ctx, body)
